@@ -14,7 +14,7 @@ INFO = {
         'None, int, float, str, tuple, list: order operators must raise ValueError, == is False, != is True. sorted(): 3 (thorough 4) symbolic '
         'ratings through the real sorted(); on every path the output is monotone in ordinal().'),
     'bounds': {
-        'quick': '5 rating classes x {<, <=, >, >=, ==, !=} over all finite doubles; ordinal(z) symbolic; 10 foreign kinds; sorted() of 3',
+        'quick': '5 rating classes x {<, <=, >, >=, ==, !=} over all finite doubles, on fresh objects and on objects that were used and then updated in place; ordinal(z) symbolic; 10 foreign kinds; sorted() of 3',
         'thorough': '+ sorted() of 4',
     },
     'outside': ['NaN / infinite mu or sigma', 'foreign kinds not on the menu (menu printed in the samples)'],
@@ -32,6 +32,9 @@ def jobs(tier):
     for key in H.ALL:
         for op in OPS:
             out.append({'name': f'{key}-op-{op}', 'mode': 'op', 'model': key, 'op': op, 'budget': 300, 'cost': 10})
+            # the same obligation on rating objects that were compared / asked for their ordinal before their mu and sigma
+            # were updated in place (rate() updates the objects it is given): nothing may be remembered
+            out.append({'name': f'{key}-op-{op}-updated', 'mode': 'op', 'model': key, 'op': op, 'updated': True, 'budget': 300, 'cost': 10})
         out.append({'name': f'{key}-ordinal', 'mode': 'ordinal', 'model': key, 'budget': 300, 'cost': 5})
         out.append({'name': f'{key}-foreign', 'mode': 'foreign', 'model': key, 'budget': 300, 'cost': 5})
         out.append({'name': f'{key}-sorted3', 'mode': 'sorted', 'n': 3, 'model': key, 'budget': 600, 'cost': 60})
@@ -67,6 +70,16 @@ def _spec(op, mu_a, sg_a, mu_b, sg_b):
         return z3.fpGEQ(oa, ob)
     e = z3.And(z3.fpEQ(mu_a, mu_b), z3.fpEQ(sg_a, sg_b))
     return e if op == 'eq' else z3.Not(e)
+
+
+def _warm_up(a, b):
+    """use the objects before they are updated: every operator, ordinal with two z values, sorted, hash"""
+    for f in OPS.values():
+        f(a, b)
+        f(b, a)
+    a.ordinal(), b.ordinal(), a.ordinal(2.0), b.ordinal(1.0)
+    sorted([a, b])
+    hash(a), hash(b)
 
 
 FOREIGN = ['other0', 'other1', 'other2', 'other3', 'none', 'int', 'float', 'str', 'tuple', 'list']
@@ -124,6 +137,12 @@ def run_job(spec, ctx):
         base = [fp.finite(V[n]) for n in names]
 
         def run():
+            if spec.get('updated'):
+                a, b = R(30.0, 2.0), R(10.0, 1.0)
+                _warm_up(a, b)
+                a.mu, a.sigma = fp.FSym(V['mu_a']), fp.FSym(V['sg_a'])
+                b.mu, b.sigma = fp.FSym(V['mu_b']), fp.FSym(V['sg_b'])
+                return OPS[op](a, b)
             a = R(fp.FSym(V['mu_a']), fp.FSym(V['sg_a']))
             b = R(fp.FSym(V['mu_b']), fp.FSym(V['sg_b']))
             return OPS[op](a, b)
@@ -151,7 +170,7 @@ def run_job(spec, ctx):
             sample = {'class': R.__name__, 'operator': op, 'result_on_path': repr(out), 'path_condition': [str(c)[:200] for c in eng.pc],
                       'negated_obligation': str(neg)[:300]}
             if r == 'sat':
-                cand = {'mode': 'op', 'model': key, 'op': op, 'vals': {n: fp.fp_value(m, n) for n in names}}
+                cand = {'mode': 'op', 'model': key, 'op': op, 'updated': bool(spec.get('updated')), 'vals': {n: fp.fp_value(m, n) for n in names}}
                 ctx.ob(f'{R.__name__} {op}: result <=> ordinal comparison', 'sat', cand, sample=sample)
             else:
                 ctx.ob(f'{R.__name__} {op}: path => (result <=> spec)', r, sample=sample)
@@ -263,7 +282,12 @@ def replay(cand):
     mode = cand['mode']
     if mode == 'op':
         v = cand['vals']
-        a, b = R(v['mu_a'], v['sg_a']), R(v['mu_b'], v['sg_b'])
+        if cand.get('updated'):
+            a, b = R(30.0, 2.0), R(10.0, 1.0)
+            _warm_up(a, b)
+            a.mu, a.sigma, b.mu, b.sigma = v['mu_a'], v['sg_a'], v['mu_b'], v['sg_b']
+        else:
+            a, b = R(v['mu_a'], v['sg_a']), R(v['mu_b'], v['sg_b'])
         op = cand['op']
         try:
             got = OPS[op](a, b)
@@ -272,8 +296,8 @@ def replay(cand):
         oa, ob = v['mu_a'] - 3.0 * v['sg_a'], v['mu_b'] - 3.0 * v['sg_b']
         want = {'lt': oa < ob, 'le': oa <= ob, 'gt': oa > ob, 'ge': oa >= ob,
                 'eq': v['mu_a'] == v['mu_b'] and v['sg_a'] == v['sg_b'], 'ne': not (v['mu_a'] == v['mu_b'] and v['sg_a'] == v['sg_b'])}[op]
-        return {'violated': got is not want, 'key': f'{key}:op:{op}',
-                'detail': f'C18 {R.__name__}({v["mu_a"]!r}, {v["sg_a"]!r}) {op} {R.__name__}({v["mu_b"]!r}, {v["sg_b"]!r}) = {got!r}, '
+        return {'violated': got is not want, 'key': f'{key}:op:{op}' + (':updated' if cand.get('updated') else ''),
+                'detail': ('[objects used, then updated in place] ' if cand.get('updated') else '') + f'C18 {R.__name__}({v["mu_a"]!r}, {v["sg_a"]!r}) {op} {R.__name__}({v["mu_b"]!r}, {v["sg_b"]!r}) = {got!r}, '
                           f'ordinals {oa!r} vs {ob!r} => expected {want!r}'}
     if mode == 'ordinal':
         v = cand['vals']
